@@ -187,16 +187,23 @@ def judge_chain(case):
 
 
 @st.composite
-def chain_strategy(draw):
+def modes_strategy(draw):
     c = draw(strict_strategy())
-    c["mode"] = draw(st.sampled_from([1, 2]))
+    c["mode"] = draw(st.sampled_from([0, 0, 0, 1, 2]))
     return c
+
+
+def judge_modes(case):
+    """4a and 4c share one campaign so that every worker process sees all three modes interleaved
+    (a bound that only breaks after another mode has run in the same process is then reachable)."""
+    if case["mode"] == 0:
+        return judge_strict(case)
+    return judge_chain(case)
 
 
 def subchecks(tier):
     q = tier == "quick"
     return [
-        Hyp("4a-strict-cap", strict_strategy, judge_strict, examples=6000 if q else 150000),
+        Hyp("4a+4c-strict-cap-and-step-chain", modes_strategy, judge_modes, examples=6400 if q else 160000),
         Hyp("4b-search-routines", routine_strategy, judge_routine, examples=8000 if q else 300000),
-        Hyp("4c-step-chain", chain_strategy, judge_chain, examples=1600 if q else 40000),
     ]
